@@ -9,6 +9,17 @@ The oracle differentiates numerically (Richardson-extrapolated central differenc
   base/tree : a plain-Python evaluation of the composition by NAMES (sum = sum of the parts, offset = shift
               of the abscissa, inverse = bisection of the forward part) over the leaf model functions,
   fit       : the implementation's own residual vector (`Fit._calculate_residual`), as the property says.
+
+The harness is a caller with memory.  A Jacobian / derivative is a function of the abscissa and the parameter
+vector only, so a case may say what the SAME model object (the same fit) was asked before the observed call:
+  base/tree : "before" = [[method, abscissas, parameters | null], ...] — `_raw_call` / `jacobian` / `derivative` on
+              other abscissas (same or different number of points) with the same or other parameter values, run
+              before the observed Jacobian and again before the observed derivative; "also" / "pos" = other
+              abscissas evaluated in the same (vectorised) call, the observed one at index pos,
+  fit       : "pre" = [["res" | "jac", factor], ...] — residual / Jacobian evaluations of the same fit (at the
+              parameter vector times `factor`) before the observed Jacobian (an optimiser asks for the residual
+              first); fits contain inverted models (`invert()`, efjc_force, twlc_force) like any other.
+Model and oracle are stateless: any dependence of the answer on such a history is a disagreement.
 """
 import math
 
@@ -41,6 +52,8 @@ THEOREMS = [
     "Verif.C13.localize_sensitivities_spec",
     "Verif.C13.fit_jacobian_assembly",
     "Verif.C13.fit_row_unfold",
+    "Verif.C13.fit_row_sols_unfold",
+    "Verif.C13.fit_rows_without_inversion",
     "Verif.C13.shared_parameter_chain_rule",
     "Verif.C13.F9_witness",
     "Verif.C13.cardano_chain_eq_implicit_partial",
@@ -484,26 +497,70 @@ def obj_of(tree):
     return _OBJ_CACHE[key]
 
 
+def xvec(case):
+    """(abscissa array of the observed call, index of the observed abscissa in it): `x` alone, or together with
+    the other abscissas `also` of the same vectorised call"""
+    also = [float(v) for v in case.get("also", [])]
+    pos = min(max(int(case.get("pos", 0)), 0), len(also))
+    return np.array(also[:pos] + [float(case["x"])] + also[pos:], dtype=float), pos
+
+
+def at(arr, pos):
+    """entry `pos` of a per-point result (a row that does not depend on the abscissa may come back as a scalar)"""
+    a = np.asarray(arr, dtype=float).ravel()
+    return a[pos] if a.size > 1 else a[0]
+
+
+def run_steps(obj, steps, p_same, names=None):
+    """what the same model object was asked before the observed call (results and errors are not observed)"""
+    for meth, xs, pd in steps or []:
+        try:
+            pv = p_same if pd is None else ([float(pd[n]) for n in names] if isinstance(pd, dict) else [float(v) for v in pd])
+            xa = np.array([float(v) for v in xs], dtype=float)
+            if meth == "call":
+                obj._raw_call(xa, np.asarray(pv, dtype=float))
+            elif meth == "jac":
+                obj.jacobian(xa, pv)
+            elif meth == "der":
+                obj.derivative(xa, pv)
+        except Exception:
+            pass
+
+
+def run_fit_steps(fit, steps, vec):
+    for meth, factor in steps or []:
+        try:
+            v = np.array(vec, dtype=float) * float(factor)
+            if meth == "res":
+                fit._calculate_residual(v)
+            elif meth == "jac":
+                fit._calculate_jacobian(v)
+        except Exception:
+            pass
+
+
 def impl(case):
     _quiet()
     k = case["op"]
     try:
         if k == "base":
             obj = obj_of(["base", case["kind"], "m"])
-            x = np.array([case["x"]], dtype=float)
+            x, pos = xvec(case)
             p = [float(v) for v in case["p"]]
             out = []
             try:
-                out.append(fl(np.asarray(obj._raw_call(x, np.asarray(p))).ravel()[0]))
+                out.append(fl(at(obj._raw_call(x, np.asarray(p)), pos)))
             except Exception as e:
                 out.append(errname(e))
+            run_steps(obj, case.get("before"), p)
             try:
                 j = obj.jacobian(x, p)
-                out.append(fl_list([np.asarray(r).ravel()[0] for r in j]))
+                out.append(fl_list([at(r, pos) for r in j]))
             except Exception as e:
                 out.append(errname(e))
+            run_steps(obj, case.get("before"), p)
             try:
-                out.append(fl(np.asarray(obj.derivative(x, p)).ravel()[0]))
+                out.append(fl(at(obj.derivative(x, p), pos)))
             except Exception as e:
                 out.append(errname(e))
             return out
@@ -518,16 +575,18 @@ def impl(case):
             obj = obj_of(case["tree"])
             names = list(obj.parameter_names)
             p = pvec(case, names)
-            x = np.array([case["x"]], dtype=float)
+            x, pos = xvec(case)
             out = [" ".join(names) + " | " + fl_list(sols_of(case, obj))]
+            run_steps(obj, case.get("before"), p, names)
             try:
                 j = obj.jacobian(x, p)
-                out.append(fl_list([np.asarray(r).ravel()[0] for r in np.asarray(j)]))
+                out.append(fl_list([at(r, pos) for r in np.asarray(j)]))
             except Exception as e:
                 out.append(errname(e))
             if has_derivative(case["tree"]):
+                run_steps(obj, case.get("before"), p, names)
                 try:
-                    out.append(fl(np.asarray(obj.derivative(x, p)).ravel()[0]))
+                    out.append(fl(at(obj.derivative(x, p), pos)))
                 except Exception as e:
                     out.append(errname(e))
             return out
@@ -535,15 +594,31 @@ def impl(case):
             fit, _ = build_fit(case)
             names = [str(n) for n in fit.params.keys()]
             vec = np.array([float(case["values"][n]) for n in names], dtype=float)
+            run_fit_steps(fit, case.get("pre"), vec)
             J = np.asarray(fit._calculate_jacobian(np.array(vec)))
             a0 = " ".join(names) + " | " + "[" + ";".join(",".join(fl(v) for v in row) for row in J) + "]"
             Jn, En = numeric_fit_jacobian(fit, vec)
+            if fit_has_inv(case):
+                # every residual evaluation solves an inversion per point: the oracle (which judges the very same
+                # numerical differentiation of the residual vector) takes this table instead of repeating it
+                if len(_NUMJ) > 50:
+                    _NUMJ.clear()
+                _NUMJ[fit_key(case)] = (np.array(Jn), np.array(En))
             Jn = np.where(En > 1.0e-7 * np.maximum(np.abs(Jn), 1e-300), np.nan, Jn)  # not converged (kink, noise)
             a1 = " ".join(names) + " | " + "[" + ";".join(",".join(fl(v) for v in row) for row in Jn) + "]"
             return [a0, a1]
     except Exception as e:
         return [errname(e)] * len(ops(case))
     raise ValueError(k)
+
+
+_NUMJ = {}
+
+
+def fit_key(case):
+    import json
+
+    return json.dumps({k: v for k, v in case.items() if not str(k).startswith("_") and k not in ("stream", "subseed")}, sort_keys=True)
 
 
 def build_fit(case):
@@ -591,6 +666,78 @@ def richardson_vec(fn, x, h):
     return best, err + noise / (h / 8) * 4 + JUMP_WEIGHT * jump_estimate(fn(x), ends)
 
 
+_FIT_SOLS = {}
+
+
+def local_params(case, m, d):
+    """{model parameter: value} of one data set of a fit case (renamed -> the fit parameter's value, pinned -> the
+    number, untransformed -> the value of the parameter of that name)"""
+    tr = dict((n, v) for n, v in d["trans"])
+    out = {}
+    for n in obj_of(m["tree"]).parameter_names:
+        v = tr.get(n, n)
+        out[n] = float(case["values"][v]) if isinstance(v, str) else float(v)
+    return out
+
+
+def fit_sols(case):
+    """per model, per data set, per point: what the numerical inversions of the model tree return at that point with
+    the data set's local parameters (inputs of the model's inversion rule, as `sols_of`), and the largest relative
+    error of any of them against a bisection to machine precision (nan if that could not be measured)"""
+    import json
+
+    key = json.dumps([case["models"], sorted(case["values"].items())], sort_keys=True)
+    if key not in _FIT_SOLS:
+        if len(_FIT_SOLS) > 500:
+            _FIT_SOLS.clear()
+        rows, worst = [], 0.0
+        for m in case["models"]:
+            mrows = []
+            n_inv = count_inv(m["tree"])
+            obj = obj_of(m["tree"])
+            names = list(obj.parameter_names)
+            for d in m["data"]:
+                drows = []
+                if n_inv:
+                    try:
+                        loc = local_params(case, m, d)
+                    except Exception:
+                        loc = None
+                    for x in d["xs"]:
+                        try:
+                            got = collect_sols(m["tree"], obj, float(x), [loc[n] for n in names])
+                        except Exception:
+                            got = [float("nan")] * n_inv
+                        drows.append(got)
+                        try:
+                            exact = spec_sols(m["tree"], float(x), loc)
+                            for a, b in zip(got, exact):
+                                e = abs(a - b) / max(abs(b), 1e-300) if math.isfinite(a) else float("inf")
+                                worst = max(worst, e) if not math.isnan(worst) else worst
+                        except Exception:
+                            worst = float("nan")
+                mrows.append(drows)
+            rows.append(mrows)
+        _FIT_SOLS[key] = (rows, worst)
+    return _FIT_SOLS[key]
+
+
+def fit_has_inv(case):
+    return any(count_inv(m["tree"]) for m in case["models"])
+
+
+def fit_inv_rel(case):
+    """tolerance of a fit whose models contain numerical inversions: the analytic rule is evaluated at the F the
+    inversion returned, whose error is outside the property (as for compositions); None = no inversion; inf = the
+    error could not be measured / is too large to judge anything"""
+    if not fit_has_inv(case):
+        return None
+    worst = fit_sols(case)[1]
+    if not worst < 1.0e-2:
+        return float("inf")
+    return 1.0e-5 + 200.0 * worst
+
+
 def assoc_tokens(d):
     items = sorted(d.items())
     return [str(len(items))] + [t for n, v in items for t in (n, fl(v))]
@@ -616,13 +763,17 @@ def ops(case):
         return out
     if k == "fit":
         toks = assoc_tokens(case["values"]) + [str(len(case["models"]))]
-        for m in case["models"]:
+        sols = fit_sols(case)[0] if fit_has_inv(case) else None
+        for mi_, m in enumerate(case["models"]):
             obj = obj_of(m["tree"])
             toks += tokens(m["tree"], obj) + [str(len(m["data"]))]
             names = list(obj.parameter_names)
-            for d in m["data"]:
+            for di, d in enumerate(m["data"]):
                 tr = dict(d["trans"])
-                toks += [fl_list(d["xs"]), str(len(names))]
+                toks += [fl_list(d["xs"])]
+                if sols is not None and count_inv(m["tree"]):
+                    toks.append("S[" + ";".join(",".join(fl(v) for v in row) for row in sols[mi_][di]) + "]")
+                toks += [str(len(names))]
                 for n in names:
                     v = tr.get(n, n)
                     toks.append("s:" + v if isinstance(v, str) else "c:" + fl(v))
@@ -753,6 +904,13 @@ def fit_rows_agree(case, i, na, ja, jb):
                 return False
             cub = any(l[1] in CUBIC for m in case["models"] for l in leaves(m["tree"]))
             rel = (CUBIC_REL if cub else MODEL_REL) if i == 0 else 1.0e-5
+            inv_rel = fit_inv_rel(case)
+            if inv_rel is not None:
+                # i == 0: model and code apply the inversion rule to the same F (1e-7 as for compositions);
+                # i == 1: the numerical derivative of the residual sees the true inverse, the rule the returned F
+                rel = max(rel, 1.0e-7) if i == 0 else max(rel, inv_rel)
+                if i == 1 and not math.isfinite(rel):
+                    return True
             g = [float(case["values"][n]) for n in na.split(" ")]
             for ra, rb in zip(A, B):
                 if len(ra) != len(rb):
@@ -760,8 +918,11 @@ def fit_rows_agree(case, i, na, ja, jb):
                 if i == 1:
                     keep = [j for j, (u, v) in enumerate(zip(ra, rb)) if math.isfinite(u) and math.isfinite(v)]
                     sens = max([abs(g[j] * rb[j]) for j in range(len(rb)) if math.isfinite(rb[j])] + [0.0])
+                    # through an inversion the differentiated residual contains the (smooth, parameter dependent)
+                    # error of the returned F: entries are compared on the scale of the row's largest sensitivity
+                    fl_ = 1.0 if inv_rel is not None else 1.0e-4
                     for j in keep:
-                        if not close(ra[j], rb[j], rel, 1.0e-4 * sens / max(abs(g[j]), 1e-2)):
+                        if not close(ra[j], rb[j], rel, fl_ * sens / max(abs(g[j]), 1e-2)):
                             return False
                     continue
                 if not rows_close(ra, rb, g, rel, 1.0e-9 if i == 0 else 1.0e-5):
@@ -965,18 +1126,26 @@ def oracle_fit(case, ia):
     if not names:
         return None  # every parameter pinned to a constant: the Jacobian has no column to judge
     A = parse_rows(ia[0].split(" | ")[1])
-    fit, _ = build_fit(case)
     vec = np.array([float(case["values"][n]) for n in names], dtype=float)
-    Jn, En = numeric_fit_jacobian(fit, vec)
-    r0 = np.asarray(fit._calculate_residual(np.array(vec)))
+    if fit_key(case) in _NUMJ:
+        Jn, En = _NUMJ.pop(fit_key(case))
+    else:
+        fit, _ = build_fit(case)
+        Jn, En = numeric_fit_jacobian(fit, vec)
     if len(A) != Jn.shape[0] or any(len(r) != Jn.shape[1] for r in A):
         return f"fit-jacobian-shape: {len(A)} rows, numerical {Jn.shape}"
     skipped = case.setdefault("_skipped", [])
+    inv_rel = fit_inv_rel(case)
+    if inv_rel is not None and not math.isfinite(inv_rel):
+        skipped.append("inversion-error>1e-2")
+        return None
     wrong = []
     for r in range(Jn.shape[0]):
         sens = max([abs(g * v) for g, v in zip(vec, A[r]) if math.isfinite(v)] + [0.0])
         for c in range(Jn.shape[1]):
-            v = judge(A[r][c], float(Jn[r, c]), float(En[r, c]), 1e-3 * sens / max(abs(vec[c]), 1e-2) + 1e-300)
+            # (through an inversion the differentiated residual contains the smooth, parameter dependent error of the
+            # returned F: the entries are then judged on the scale of the row's largest sensitivity)
+            v = judge(A[r][c], float(Jn[r, c]), float(En[r, c]), (1e-3 if inv_rel is None else 1.0) * sens / max(abs(vec[c]), 1e-2) + 1e-300, rel=inv_rel)
             if v == "skip":
                 skipped.append("fit-entry")
             elif v:
@@ -1058,7 +1227,18 @@ def shrink_(case):
                     c["models"][i]["data"] = list(m["data"])
                     c["models"][i]["data"][j] = dict(d, trans=d["trans"][:t] + d["trans"][t + 1 :])
                     yield c
-    elif k == "tree":
+    if k in ("tree", "base"):
+        # a failure that does not need the object's past is reported without it
+        if case.get("before"):
+            yield {kk: v for kk, v in case.items() if kk != "before"}
+            if len(case["before"]) > 1:
+                for i in range(len(case["before"])):
+                    yield dict(case, before=case["before"][:i] + case["before"][i + 1 :])
+        if case.get("also"):
+            yield {kk: v for kk, v in case.items() if kk not in ("also", "pos")}
+    if k == "fit" and case.get("pre"):
+        yield {kk: v for kk, v in case.items() if kk != "pre"}
+    if k == "tree":
         t = case["tree"]
         for s in t[1:]:
             if isinstance(s, list) and indep_of(s) == indep_of(t):
@@ -1365,6 +1545,114 @@ def valid_everywhere(t, x, pd, base_ok=False):
         return False
 
 
+def other_abscissa(rng, t, pd):
+    """another abscissa inside the validity range of the composition at the same parameters"""
+    for _ in range(6):
+        try:
+            x = pick_x(rng, t, pd)
+        except Exception:
+            x = None
+        if x is not None and math.isfinite(x) and valid_everywhere(t, x, pd, base_ok=True):
+            return float(x)
+    return None
+
+
+HISTORY_STYLES = ["call-same-length", "jac-same-length", "der-same-length", "call-other-parameters-same-abscissa",
+                  "vector-call-same-length", "call-other-length"]
+
+
+def add_history(rng, c, t, pd, names=None, style=None):
+    """make the case a call on a model object WITH A PAST: other abscissas in the same vectorised call (`also`/`pos`)
+    and / or earlier calls of the model function, the Jacobian or the derivative on the same object (`before`) — on
+    other abscissas (same number of points as the observed call, or another number) with the same parameter values,
+    or with other parameter values (then on the same or on other abscissas).  `style` = one fixed past of
+    HISTORY_STYLES (small scope), None = random.  `names` = order of the parameter list of a base case (its steps carry
+    lists, those of a composition dictionaries).  Returns False if no valid other abscissa was found."""
+    def others(n):
+        xs = [other_abscissa(rng, t, pd) for _ in range(n)]
+        return None if any(v is None for v in xs) else xs
+
+    def params(same):
+        if same:
+            return None
+        q = {k: float(v * rng.uniform(0.97, 1.03)) for k, v in pd.items()}
+        return q if names is None else [q[n] for n in names]
+
+    def observed():
+        also = c.get("also", [])
+        pos = c.get("pos", 0)
+        return also[:pos] + [c["x"]] + also[pos:]
+
+    if style is not None:
+        if style == "vector-call-same-length":
+            also = others(2)
+            if also is None:
+                return False
+            c["also"], c["pos"] = also, 1
+        n = len(observed())
+        if style == "call-other-parameters-same-abscissa":
+            c["before"] = [["call", observed(), params(False)]]
+            return True
+        xs = others(n + 1 if style == "call-other-length" else n)
+        if xs is None:
+            return False
+        c["before"] = [[style.split("-")[0], xs, None]]
+        return True
+    if rng.chance(0.5):
+        also = others(rng.randint(1, 3))
+        if also is not None:
+            c["also"], c["pos"] = also, rng.randint(0, len(also))
+    n = len(observed())
+    steps = []
+    for _ in range(rng.randint(1, 3)):
+        meth = rng.choice(["call", "call", "jac", "der"])
+        same_p = rng.chance(0.7)
+        if not same_p and rng.chance(0.5):
+            xs = observed()
+        else:
+            xs = others(n if rng.chance(0.7) else rng.choice([k for k in (1, 2, 3, 4) if k != n]))
+        if xs is None:
+            continue
+        steps.append([meth, xs, params(same_p)])
+    if steps:
+        c["before"] = steps
+    return bool(steps) or "also" in c
+
+
+def gen_fit_pre(rng):
+    """what the same fit was asked before the observed Jacobian: the residual at the same parameter vector (what an
+    optimiser does), or a short random sequence of residual / Jacobian evaluations at the same / a nearby vector"""
+    if rng.chance(0.5):
+        return [["res", 1.0]]
+    return [[rng.choice(["res", "jac"]), 1.0 if rng.chance(0.6) else float(rng.uniform(0.98, 1.02))] for _ in range(rng.randint(1, 3))]
+
+
+def gen_inv_tree(rng, counter):
+    """a force model that contains a numerical inversion: efjc_force / twlc_force / invert() of a distance model or of a
+    sum of two, alone, plus a force offset or another force model, or behind an independent offset"""
+    def fresh():
+        counter[0] += 1
+        return ["DNA", "prot", "m3", "m4", "m5", "m6"][counter[0] - 1] if counter[0] <= 6 else f"m{counter[0]}"
+
+    k = rng.randint(0, 11)  # (twlc_force is rare: it has no derivative, its inversions are by far the slowest)
+    if k == 0:
+        core = ["twlc_f", fresh()]
+    elif k <= 2:
+        core = ["efjc_f", fresh()]
+    elif k <= 4:
+        core = ["inv", ["add", ["base", rng.choice(["odijk_d", "ems_d"]), fresh()], ["base", rng.choice(["efjc_d", "odijk_d"]), fresh()]]]
+    else:
+        core = ["inv", ["base", rng.choice(["odijk_d", "ems_d", "efjc_d", "twlc_d", "ms_d"]), fresh()]]
+    w = rng.randint(0, 5)
+    if w == 0:
+        return ["add", core, ["base", "offset_f", fresh()]]
+    if w == 1:
+        return ["add", core, ["base", rng.choice(FORCE_KINDS[:3]), fresh()]]
+    if w == 2 and has_derivative(core):
+        return ["off", core]
+    return core
+
+
 def condition_patterns(n):
     """every way n data sets of one model can share simulation conditions, as restricted-growth strings (the condition
     label of each data set, labels numbered by first occurrence): n = 3 -> 000 001 010 011 012.  The code groups data
@@ -1468,12 +1756,12 @@ def gen_fit_data(rng, t, pn, params, values, trans, npts, kink=False):
     return {"xs": xs, "ys": ys, "trans": [list(e) for e in trans]}
 
 
-def gen_fit_tree(rng, mi_, tree=None):
-    """(tree, a parameter point of it) of the mi_-th model of a fit"""
+def gen_fit_tree(rng, mi_, tree=None, inv=False):
+    """(tree, a parameter point of it) of the mi_-th model of a fit; `inv`: a model that contains an inversion"""
     indep = rng.choice(["f", "d"])
     for _ in range(30):
         cnt = [2 * mi_] if mi_ else [0]
-        t = tree or gen_tree(rng, indep, rng.choice([0, 1, 1, 2]), cnt, allow_inv=False)
+        t = tree or (gen_inv_tree(rng, cnt) if inv else gen_tree(rng, indep, rng.choice([0, 1, 1, 2]), cnt, allow_inv=False))
         if t[0] == "base" and t[1].startswith("offset"):
             continue
         tc = gen_tree_case(rng, tree=t)
@@ -1485,16 +1773,19 @@ def gen_fit_tree(rng, mi_, tree=None):
     return None, None
 
 
-def gen_fit_case(rng, allow_dups=True, by_pattern=None):
+def gen_fit_case(rng, allow_dups=True, by_pattern=None, inv=False):
     """a random fit layout.  Half of the cases draw one transformation per DATA SET independently (data sets then
     almost never share a condition unless both are untransformed); the other half first draw how the data sets share
     conditions (a pattern of `condition_patterns`, all equally likely) and then one transformation per CONDITION, so
-    that shared conditions in every order of appearance (AAB, ABA, ABB ...) are produced on purpose"""
+    that shared conditions in every order of appearance (AAB, ABA, ABB ...) are produced on purpose.  `inv`: the first
+    model contains a numerical inversion (data sets of a model that share a condition are then evaluated one after the
+    other on the same inverted model with the same parameter values; half of those layouts give all data sets of the
+    model the same number of points)"""
     nm = rng.choice([1, 1, 1, 2])
     models = []
     values = {}
     for mi_ in range(nm):
-        t, tc = gen_fit_tree(rng, mi_)
+        t, tc = gen_fit_tree(rng, mi_, inv=inv and mi_ == 0)
         if t is None:
             return None
         pn = list(obj_of(t).parameter_names)
@@ -1520,13 +1811,18 @@ def gen_fit_case(rng, allow_dups=True, by_pattern=None):
         else:
             all_trans = [gen_trans(rng, pn, tc["params"], values, f"{mi_}{di}", allow_dups) for di in range(nd)]
         data = []
+        most = 2 if inv else 3  # (every residual evaluation of an inverted model solves an inversion per point)
+        equal_len = rng.randint(1, most) if rng.chance(0.5) else None
         for trans in all_trans:
-            d = gen_fit_data(rng, t, pn, tc["params"], values, trans, rng.randint(1, 3), kink=rng.chance(0.3))
+            d = gen_fit_data(rng, t, pn, tc["params"], values, trans, equal_len or rng.randint(1, most), kink=rng.chance(0.3))
             if d is None:
                 return None
             data.append(d)
         models.append({"tree": t, "data": data})
-    return {"op": "fit", "models": models, "values": values}
+    case = {"op": "fit", "models": models, "values": values}
+    if rng.chance(0.6):
+        case["pre"] = gen_fit_pre(rng)
+    return case
 
 
 # small scope of fit layouts: how the conditions of a pattern differ from each other
@@ -1785,6 +2081,25 @@ def cases(tier, rng):
                 c["stream"] = "small-scope"
                 yield c
                 break
+    # a model object with a past: every composition that contains an inversion (and a few that do not) asked for its
+    # Jacobian / derivative after the SAME object evaluated the model function / the Jacobian / the derivative on other
+    # abscissas (as many as in the observed call, or one more) with the same parameter values, or on the same abscissas
+    # with other parameter values; alone and inside a vectorised call of three abscissas
+    past_trees = [t for t in trees if count_inv(t)] + [
+        ["base", "odijk_f", "DNA"], ["add", ["base", "odijk_d", "DNA"], ["base", "efjc_d", "ss"]], ["off", ["base", "ems_d", "DNA"]]]
+    for ti, t in enumerate(past_trees):
+        styles = HISTORY_STYLES if not quick else [HISTORY_STYLES[(ti + ti // 3) % len(HISTORY_STYLES)]]
+        for style in styles:
+            for attempt in range(4):
+                sub = r0.fork("past" + repr(t) + style + f".{attempt}")
+                c = gen_tree_case(sub, tree=t)
+                if c is None or not valid_everywhere(t, c["x"], c["params"]):
+                    continue
+                if not add_history(sub, c, t, c["params"], style=style):
+                    continue
+                c["stream"] = "small-scope"
+                yield c
+                break
     # the same compositions of the twistable model with the abscissa placed so that the leaf is evaluated exactly on
     # its regime boundary f == Fc (through the offsets)
     kink_trees = [
@@ -1846,11 +2161,33 @@ def cases(tier, rng):
     for pats in ([[0, 1, 0], [0, 1, 0]], [[0, 1], [0, 1, 0]], [[0, 1, 0], [0]], [[0, 0, 1], [0, 1, 1]]):
         for styles in SCOPE_STYLES:
             layouts.append((two, pats, styles, [2, 1, 3, 1, 2], False))
+    # fits of models that contain a numerical inversion (invert(), efjc_force, alone / in a sum / behind an offset):
+    # the data sets of one condition are evaluated one after the other on the same inverted model with the same
+    # parameter values — with equally many points each ([2, 2, 2], [1, 1, 1]) and with different numbers; asked for the
+    # Jacobian on a fresh fit, after the residual (what an optimiser does), and after residual + Jacobian elsewhere
+    inv_trees = [["inv", ["base", "odijk_d", "DNA"]], ["efjc_f", "ss"]]
+    inv_pats = [[0, 0], [0, 1, 0]]
+    inv_profiles = [[2, 2, 2], [2, 1, 3]]
+    if not quick:
+        inv_trees += [["inv", ["base", "ems_d", "DNA"]], ["add", ["inv", ["base", "efjc_d", "ss"]], ["base", "offset_f", "o"]],
+                      ["off", ["inv", ["base", "odijk_d", "DNA"]]], ["twlc_f", "DNA"],
+                      ["inv", ["add", ["base", "odijk_d", "DNA"], ["base", "efjc_d", "ss"]]]]
+        inv_pats = [[0], [0, 0], [0, 1], [0, 0, 0], [0, 0, 1], [0, 1, 0], [0, 1, 1]]
+    pres = [None, [["res", 1.0]], [["res", 1.01], ["jac", 1.01], ["res", 1.0]]]
+    n_plain = len(layouts)
+    for t in inv_trees:
+        for pat in inv_pats:
+            if t[0] == "twlc_f" and pat not in ([0, 0], [0, 1, 0]):
+                continue  # (no derivative: its inversions are by far the slowest)
+            for prof in inv_profiles + ([[1, 1, 1]] if not quick and pat == [0, 0] else []):
+                layouts.append(([t], [pat], SCOPE_STYLES[len(layouts) % len(SCOPE_STYLES)] if max(pat) else SCOPE_STYLES[0], prof, False))
     for li, (ts, pats, styles, prof, kink) in enumerate(layouts):
         for attempt in range(5):
             c = scope_fit_case(rf.fork(f"{li}.{attempt}"), ts, pats, styles, prof, kink=kink)
             if c is not None:
                 c["stream"] = "small-scope"
+                if li >= n_plain and pres[(li - n_plain) % len(pres)]:
+                    c["pre"] = pres[(li - n_plain) % len(pres)]
                 yield c
                 break
 
@@ -1868,7 +2205,10 @@ def cases(tier, rng):
             continue
         if not valid_everywhere(["base", kind, "m"], x, pd, base_ok=True):
             continue
-        yield {"stream": "random", "op": "base", "kind": kind, "x": float(x), "p": [pd[n] for n in leaf_names(kind, "m")], "subseed": i}
+        c = {"stream": "random", "op": "base", "kind": kind, "x": float(x), "p": [pd[n] for n in leaf_names(kind, "m")], "subseed": i}
+        if sub.chance(0.3):  # the (shared) model object has a past
+            add_history(sub, c, ["base", kind, "m"], pd, names=leaf_names(kind, "m"))
+        yield c
 
     # ---- raw cubics: all three root indices, both branches (from chosen roots, so that the branch is controlled)
     N = 300 if quick else 6000
@@ -1892,16 +2232,18 @@ def cases(tier, rng):
         c = gen_tree_case(sub, depth=sub.choice([1, 2, 2, 3]), allow_inv=sub.chance(0.5))
         if c is None or not valid_everywhere(c["tree"], c["x"], c["params"]):
             continue
+        if sub.chance(0.5):  # the model object has a past
+            add_history(sub, c, c["tree"], c["params"])
         c["stream"] = "random"
         c["subseed"] = i
         yield c
 
-    # ---- seeded random fit layouts
+    # ---- seeded random fit layouts (quick: a tenth, thorough: 6 % with a model that contains a numerical inversion)
     N = 60 if quick else 1200
     r = rng.fork("c13-fit")
     for i in range(N):
         sub = r.fork(i)
-        c = gen_fit_case(sub, allow_dups=True)
+        c = gen_fit_case(sub, allow_dups=True, inv=sub.chance(0.1 if quick else 0.06))
         if c is None:
             continue
         c["stream"] = "random"
@@ -1918,8 +2260,48 @@ def extra_coverage(results):
     efjc_arg = {"base: 2fLp/kT < 300": 0, "base: 300 <= 2fLp/kT < 500 (1/sinh^2 dropped)": 0, "base: 2fLp/kT >= 500 (coth = 1)": 0,
                 "compositions with a stiff eFJC leaf (Lp >= 20)": 0}
     dup_style = {"onto-model-parameter": 0, "new-common-name": 0}
+    past = {"base/tree cases whose model object was asked something before the observed call": 0,
+            "... the model function / Jacobian / derivative at OTHER abscissas, same number of points, same parameter values": 0,
+            "... of those on a composition with a numerical inversion": 0,
+            "... at the same abscissas with other parameter values": 0,
+            "observed abscissa inside a vectorised call of 2-4 abscissas": 0,
+            "fits with a model that contains a numerical inversion": 0,
+            "... with two data sets of one condition and equally many points (evaluated back to back at the same parameter values)": 0,
+            "fits asked for the residual / Jacobian before the observed Jacobian": 0}
+    pk = list(past)
     for r in results:
         c = r["case"]
+        try:
+            if c["op"] in ("base", "tree"):
+                n_obs = 1 + len(c.get("also", []))
+                obs = xvec(c)[0].tolist()
+                if c.get("before"):
+                    past[pk[0]] += 1
+                    if any(pd is None and len(xs) == n_obs and list(xs) != obs for _, xs, pd in c["before"]):
+                        past[pk[1]] += 1
+                        if c["op"] == "tree" and count_inv(c["tree"]):
+                            past[pk[2]] += 1
+                    if any(pd is not None and list(xs) == obs for _, xs, pd in c["before"]):
+                        past[pk[3]] += 1
+                if c.get("also"):
+                    past[pk[4]] += 1
+            if c["op"] == "fit":
+                if fit_has_inv(c):
+                    past[pk[5]] += 1
+                    for m in c["models"]:
+                        if count_inv(m["tree"]):
+                            pn = list(obj_of(m["tree"]).parameter_names)
+                            seen = set()
+                            for d in m["data"]:
+                                key = (cond_key(pn, d["trans"]), len(d["xs"]))
+                                if key in seen:
+                                    past[pk[6]] += 1
+                                    break
+                                seen.add(key)
+                if c.get("pre"):
+                    past[pk[7]] += 1
+        except Exception:
+            pass
         try:
             if c["op"] == "base" and c["kind"] == "twlc_d" and c.get("stream") != "malformed" and c["x"] == c["p"][6]:
                 boundary["base"] += 1
@@ -1985,6 +2367,7 @@ def extra_coverage(results):
         "cases_with_kT_off_default": kt_off_default,
         "efjc_overflow_guard_regimes": efjc_arg,
         "fit_layouts_two_parameters_one_fit_parameter": dup_style,
+        "objects_with_a_past": past,
         "fit_layouts": fit_layout,
         "exhaustive": False,
     }
@@ -2011,10 +2394,27 @@ RULE = (
     "two / three models with parameters of the same physical kind, whose data sets rename them onto one of them / to "
     "one common new name / two kinds at once, alone and next to untransformed, renamed, pinned conditions) "
     "+ an out-of-domain stream (zero, negative, NaN, infinite abscissas and parameters). "
+    "Objects with a past (the harness is a caller with memory; model objects are shared between cases): every composition "
+    "with a numerical inversion (and three without) is asked for its Jacobian / derivative after the SAME object evaluated "
+    "the model function / the Jacobian / the derivative on other abscissas — as many as in the observed call, or one "
+    "more — with the same parameter values, or on the same abscissas with other parameter values, alone and inside a "
+    "vectorised call of three abscissas (quick: one such past per composition, thorough: all six); half of the random "
+    "compositions and a third of the random base cases carry a random past of 1-3 such calls and / or 1-3 other abscissas "
+    "in the same call. Fits contain inverted models like any other: small scope invert(Odijk) and efjc_force (thorough: "
+    "also invert(eWLC), invert(eFJC) + force offset, offset of invert(Odijk), twlc_force, invert of a sum) x data sets "
+    "sharing / not sharing a condition x equally many points per data set ([2,2,2]; thorough also [1,1,1]) / different "
+    "numbers ([2,1,3]) x Jacobian asked on a fresh fit / after the residual / after residual + Jacobian at another vector "
+    "+ residual; a tenth (thorough 6 %) of the random fits has such a model, 60 % of all random fits are asked for residuals "
+    "/ Jacobians before the observed Jacobian, half of them give all data sets of a model equally many points. "
     "Non-trivial: base = a derivative was returned; tree = a genuine composition; fit = more than one data set or a "
     "transformation; raw cubic = always."
 )
 TRUSTED = [
+    "model and oracle are stateless functions of (abscissa, parameter values): whatever a model object or a fit was asked "
+    "before the observed call (case keys before / also / pre) is replayed on the implementation only",
+    "fits with inverted models: the values the numerical inversions return per point are inputs of the model (as for "
+    "compositions); the oracle differentiates the implementation's own residual vector and compares on the scale of the "
+    "row's largest sensitivity with the tolerance 1e-5 + 200 x the measured inversion error",
     "RealLike formulas are executed at Float and proved at R; rounding is not modelled (comparison: rel 1e-9 for closed "
     "forms and the trigonometric branch, rel 2e-6 where the Cardano chain rule is involved, 1e-7 through numerical inversions)",
     "np.abs(t)**(2/3) of calc_first_root is modelled as cbrt(|t|)^2; x**(-2) as 1/(x*x); x**3 as x*x*x",
